@@ -18,26 +18,29 @@
 (*        flattens, for every index, to exactly the committed logical content *)
 EXTENDS TraceBase, DbModel, FiniteSetsExt
 
-VARIABLES l, S, hist, tst, callC, phys
+VARIABLES l, S, hist, tst, callC, phys, trigOff
 
-tvars == <<l, S, hist, tst, callC, phys>>
+tvars == <<l, S, hist, tst, callC, phys, trigOff>>
 
 Ev == Log[l]
 IsEvent(e) == l <= NLog /\ Ev.e = e /\ l' = l + 1
 
 TraceInit == /\ HWInit /\ l = 1
              /\ S = <<>> /\ hist = <<>> /\ tst = <<>> /\ callC = <<>> /\ phys = <<>>
+             /\ trigOff = <<>>
 
 Cur == hist[Len(hist)]
 NC == Len(hist) - 1                      \* number of commits so far
 
 TrReset == /\ IsEvent("Reset")
            /\ S' = <<>> /\ hist' = <<>> /\ tst' = <<>> /\ callC' = <<>> /\ phys' = <<>>
+           /\ trigOff' = <<>>
 
 \* normalise the schema from the trace (kcols etc. as logged)
 TrSchema == /\ IsEvent("Schema")
             /\ S' = Ev.tables
             /\ hist' = << EmptyDb(Ev.tables) >>
+            /\ trigOff' = [n \in Names(Ev.tables) |-> 0]
             /\ UNCHANGED <<tst, callC, phys>>
 
 \* a schema change (index created or dropped; columns and rows unchanged), logged inside
@@ -45,10 +48,10 @@ TrSchema == /\ IsEvent("Schema")
 TrSchemaU == /\ IsEvent("SchemaU")
              /\ Names(Ev.tables) = Names(S)
              /\ S' = Ev.tables
-             /\ UNCHANGED <<hist, tst, callC, phys>>
+             /\ UNCHANGED <<hist, tst, callC, phys, trigOff>>
 
 \* outcome of an administrative request as seen by its caller (informational)
-TrAdmin == IsEvent("Admin") /\ UNCHANGED <<S, hist, tst, callC, phys>>
+TrAdmin == IsEvent("Admin") /\ UNCHANGED <<S, hist, tst, callC, phys, trigOff>>
 
 ----------------------------------------------------------------------------
 (* transactions *)
@@ -57,9 +60,18 @@ Known(t) == t \in DOMAIN tst
 Active(t) == Known(t) /\ tst[t].status = "active"
 View(t) == ApplyAll(hist[tst[t].c + 1], tst[t].wr)
 
+HasTrig(n) == TabOf(S, n).trig = 1 /\ trigOff[n] = 0
+ExpectedTrig(chg) == { c \in chg : HasTrig(c[1]) }
+TrigSet(tg) == { <<tg[i].tbl, tg[i].old, tg[i].new>> : i \in 1..Len(tg) }
+TrigExact(tg, chg) == /\ TrigSet(tg) = ExpectedTrig(chg)
+                      /\ Len(tg) = Cardinality(ExpectedTrig(chg))
+\* a throwing trigger: the calls made so far are among the expected ones
+TrigPartial(tg, chg) == /\ TrigSet(tg) \subseteq ExpectedTrig(chg)
+                        /\ Len(tg) = Cardinality(TrigSet(tg))
+
 TrBeginCall == /\ IsEvent("BeginCall")
                /\ callC' = (Ev.t :> NC) @@ callC
-               /\ UNCHANGED <<S, hist, tst, phys>>
+               /\ UNCHANGED <<S, hist, tst, phys, trigOff>>
 
 \* the snapshot is a state that was current between the call and its return
 \* (an update is logged just before it is published, hence the -1)
@@ -68,9 +80,9 @@ TrBegin == /\ IsEvent("Begin")
            /\ Ev.c >= 0 /\ Ev.c <= NC /\ Ev.c + 1 >= callC[Ev.t]
            /\ tst' = (Ev.t :> [kind |-> Ev.kind, c |-> Ev.c, wr |-> <<>>, obs |-> <<>>,
                                status |-> "active"]) @@ tst
-           /\ UNCHANGED <<S, hist, callC, phys>>
+           /\ UNCHANGED <<S, hist, callC, phys, trigOff>>
 
-TrBeginFail == IsEvent("BeginFail") /\ UNCHANGED <<S, hist, tst, callC, phys>>
+TrBeginFail == IsEvent("BeginFail") /\ UNCHANGED <<S, hist, tst, callC, phys, trigOff>>
 
 \* does observation o hold on view v?  (used at the event and again at commit)
 Holds(o, v) ==
@@ -96,7 +108,7 @@ TrAborted == /\ l <= NLog /\ Ev.e \in {"Lookup", "Scan", "Output", "Update", "De
              /\ Ev.res = "aborted" /\ l' = l + 1
              /\ Active(Ev.t) /\ tst[Ev.t].kind = "u"
              /\ tst' = [tst EXCEPT ![Ev.t].status = "dead"]
-             /\ UNCHANGED <<S, hist, callC, phys>>
+             /\ UNCHANGED <<S, hist, callC, phys, trigOff>>
 
 WithNw(o, t, chg) == [o EXCEPT !.nw = Len(tst[t].wr), !.chg = chg]
 
@@ -105,15 +117,16 @@ TrRead == /\ l <= NLog /\ Ev.e \in {"Lookup", "Scan"} /\ Ev.res = "ok" /\ l' = l
           /\ LET o == [Ev EXCEPT !.res = Len(tst[Ev.t].wr)] IN   \* res field reused as nw
                /\ Holds(Ev, View(Ev.t))
                /\ Observe(Ev.t, o, NoChg)
-          /\ UNCHANGED <<S, hist, callC, phys>>
+          /\ UNCHANGED <<S, hist, callC, phys, trigOff>>
 
 TrOutput == /\ IsEvent("Output") /\ Ev.res \in {"ok", "dup", "fk"}
             /\ Active(Ev.t) /\ tst[Ev.t].kind = "u"
             /\ Holds(Ev, View(Ev.t))
+            /\ TrigExact(Ev.trig, IF Ev.res = "ok" THEN {<<Ev.tbl, <<>>, Ev.row>>} ELSE {})
             /\ Observe(Ev.t, [e |-> "Output", tbl |-> Ev.tbl, row |-> Ev.row, res |-> Ev.res,
                               nw |-> Len(tst[Ev.t].wr)],
                        IF Ev.res = "ok" THEN {<<Ev.tbl, <<>>, Ev.row>>} ELSE NoChg)
-            /\ UNCHANGED <<S, hist, callC, phys>>
+            /\ UNCHANGED <<S, hist, callC, phys, trigOff>>
 
 TrUpdate == /\ IsEvent("Update") /\ Ev.res \in {"ok", "dup", "fk"}
             /\ Active(Ev.t) /\ tst[Ev.t].kind = "u"
@@ -121,6 +134,7 @@ TrUpdate == /\ IsEvent("Update") /\ Ev.res \in {"ok", "dup", "fk"}
                    chg == IF Ev.res = "ok" /\ Ev.old # Ev.new
                           THEN UpdChanges(v, S, Ev.tbl, Ev.old, Ev.new) ELSE NoChg
                IN  /\ Ev.old \in v[Ev.tbl]
+                   /\ TrigExact(Ev.trig, chg)
                    /\ IF Ev.old = Ev.new
                       THEN Ev.res = "ok" /\ UNCHANGED tst        \* identical record: no-op
                       ELSE /\ Holds([e |-> "Update", tbl |-> Ev.tbl, old |-> Ev.old, new |-> Ev.new,
@@ -128,17 +142,18 @@ TrUpdate == /\ IsEvent("Update") /\ Ev.res \in {"ok", "dup", "fk"}
                            /\ Observe(Ev.t, [e |-> "Update", tbl |-> Ev.tbl, old |-> Ev.old,
                                              new |-> Ev.new, res |-> Ev.res, chg |-> chg,
                                              nw |-> Len(tst[Ev.t].wr)], chg)
-            /\ UNCHANGED <<S, hist, callC, phys>>
+            /\ UNCHANGED <<S, hist, callC, phys, trigOff>>
 
 TrDelete == /\ IsEvent("Delete") /\ Ev.res \in {"ok", "fk"}
             /\ Active(Ev.t) /\ tst[Ev.t].kind = "u"
             /\ LET v == View(Ev.t)
                    chg == IF Ev.res = "ok" THEN DelChanges(v, S, Ev.tbl, Ev.row) ELSE NoChg
-               IN  /\ Holds([e |-> "Delete", tbl |-> Ev.tbl, row |-> Ev.row, res |-> Ev.res,
+               IN  /\ TrigExact(Ev.trig, chg)
+                   /\ Holds([e |-> "Delete", tbl |-> Ev.tbl, row |-> Ev.row, res |-> Ev.res,
                              chg |-> chg], v)
                    /\ Observe(Ev.t, [e |-> "Delete", tbl |-> Ev.tbl, row |-> Ev.row, res |-> Ev.res,
                                      chg |-> chg, nw |-> Len(tst[Ev.t].wr)], chg)
-            /\ UNCHANGED <<S, hist, callC, phys>>
+            /\ UNCHANGED <<S, hist, callC, phys, trigOff>>
 
 ObsNw(o) == IF o.e \in {"Lookup", "Scan"} THEN o.res ELSE o.nw
 
@@ -157,7 +172,7 @@ TrCommit == /\ IsEvent("Commit")
                             ELSE Holds(o, v)
                    /\ hist' = Append(hist, ApplyAll(Cur, wr))
             /\ tst' = [tst EXCEPT ![Ev.t].status = "committed"]
-            /\ UNCHANGED <<S, callC, phys>>
+            /\ UNCHANGED <<S, callC, phys, trigOff>>
 
 \* what the client was told
 TrComplete == /\ IsEvent("Complete")
@@ -167,15 +182,47 @@ TrComplete == /\ IsEvent("Complete")
                    THEN \/ ts.kind = "r"
                         \/ ts.status = "committed"
                         \/ ts.status = "active" /\ ts.wr = <<>>    \* nothing to commit
-                   ELSE ts.status \in {"active", "dead"}            \* failure => never committed
+                   ELSE ts.status \in {"active", "dead", "doomed"}  \* failure => never committed
               /\ tst' = [tst EXCEPT ![Ev.t].status =
                             IF @ = "committed" THEN "done-committed" ELSE "done"]
-              /\ UNCHANGED <<S, hist, callC, phys>>
+              /\ UNCHANGED <<S, hist, callC, phys, trigOff>>
 
 TrRollback == /\ IsEvent("Rollback")
-              /\ Known(Ev.t) /\ tst[Ev.t].status \in {"active", "dead"}
+              /\ Known(Ev.t) /\ tst[Ev.t].status \in {"active", "dead", "doomed"}
               /\ tst' = [tst EXCEPT ![Ev.t].status = "done"]
-              /\ UNCHANGED <<S, hist, callC, phys>>
+              /\ UNCHANGED <<S, hist, callC, phys, trigOff>>
+
+----------------------------------------------------------------------------
+(* triggers (C44): one call per row change of a table whose trigger is enabled, *)
+(* inside the changing operation, with the old and the new row (<<>> = none),    *)
+(* including changes made by cascades; none while disabled (nested counts)      *)
+
+TrTrigDisable == /\ IsEvent("TrigDisable")
+                 /\ trigOff' = [trigOff EXCEPT ![Ev.tbl] = @ + 1]
+                 /\ UNCHANGED <<S, hist, tst, callC, phys>>
+TrTrigEnable == /\ IsEvent("TrigEnable") /\ trigOff[Ev.tbl] > 0
+                /\ trigOff' = [trigOff EXCEPT ![Ev.tbl] = @ - 1]
+                /\ UNCHANGED <<S, hist, tst, callC, phys>>
+
+\* a trigger threw during a row operation: the change must never be committed, so the
+\* transaction can only fail from here on (the exception itself propagated to the caller)
+TrTrigThrew == /\ l <= NLog /\ Ev.e \in {"Output", "Update", "Delete"} /\ Ev.res = "trigger" /\ l' = l + 1
+               /\ Active(Ev.t) /\ tst[Ev.t].kind = "u"
+               /\ LET v == View(Ev.t)
+                      chg == CASE Ev.e = "Output" -> {<<Ev.tbl, <<>>, Ev.row>>}
+                               [] Ev.e = "Update" -> UpdChanges(v, S, Ev.tbl, Ev.old, Ev.new)
+                               [] Ev.e = "Delete" -> DelChanges(v, S, Ev.tbl, Ev.row)
+                  IN  TrigPartial(Ev.trig, chg) /\ Len(Ev.trig) > 0
+               /\ tst' = [tst EXCEPT ![Ev.t].status = "doomed"]
+               /\ UNCHANGED <<S, hist, callC, phys, trigOff>>
+
+\* The code applies the change to the transaction's private view before it calls the
+\* trigger, and the abort is processed asynchronously, so the doomed transaction may
+\* keep working on a private view this specification does not track; none of it may
+\* ever be committed (TrCommit needs "active", TrComplete refuses success).
+TrDoomedOp == /\ l <= NLog /\ Ev.e \in {"Lookup", "Scan", "Output", "Update", "Delete"} /\ l' = l + 1
+              /\ Known(Ev.t) /\ tst[Ev.t].status = "doomed"
+              /\ UNCHANGED <<S, hist, tst, callC, phys, trigOff>>
 
 ----------------------------------------------------------------------------
 (* physical state: every published state update *)
@@ -271,9 +318,10 @@ TrState == /\ IsEvent("StateU")
                         IF \E i \in 1..Len(Ev.tables) : Ev.tables[i].name = n
                         THEN Ev.tables[CHOOSE i \in 1..Len(Ev.tables) : Ev.tables[i].name = n]
                         ELSE phys[n]]
-           /\ UNCHANGED <<S, hist, tst, callC>>
+           /\ UNCHANGED <<S, hist, tst, callC, trigOff>>
 
 TraceNext == \/ TrReset \/ TrSchema \/ TrSchemaU \/ TrAdmin \/ TrBeginCall \/ TrBegin \/ TrBeginFail
+             \/ TrTrigDisable \/ TrTrigEnable \/ TrTrigThrew \/ TrDoomedOp
              \/ TrAborted \/ TrRead \/ TrOutput \/ TrUpdate \/ TrDelete
              \/ TrCommit \/ TrComplete \/ TrRollback \/ TrState
 
